@@ -30,6 +30,46 @@ def pair_program(iface_methods, contract_methods, kind):
     return "\n".join(out) + "\n"
 
 
+def multi_program(ifaces, contract_methods, kind):
+    """several interfaces (each a list of method names) on one contract"""
+    ctx = {"exec": "ExecCtx", "query": "QueryCtx", "sudo": "SudoCtx"}[kind]
+    ret_i = "Result<u32, Self::Error>" if kind == "query" else "Result<Response, Self::Error>"
+    ret_c = "StdResult<u32>" if kind == "query" else "StdResult<Response>"
+    body = "Ok(0)" if kind == "query" else "Ok(Response::new())"
+    out = [PRELUDE]
+    for k, ms in enumerate(ifaces):
+        out += ["pub mod iface%d {" % k, "    use super::*;", "    #[svfw::interface]", "    #[sv::custom(msg=svfw::cw_std::Empty, query=svfw::cw_std::Empty)]",
+                "    pub trait Iface%d {" % k, "        type Error: From<StdError>;"]
+        for m in ms:
+            out.append("        #[sv::msg(%s)] fn %s(&self, ctx: %s) -> %s;" % (kind, m, ctx, ret_i))
+        out += ["    }", "}"]
+    out += ["pub struct Ctr;", "#[svfw::contract]"] + ["#[sv::messages(iface%d)]" % k for k in range(len(ifaces))] + [
+        "impl Ctr {", "    pub const fn new() -> Self { Self }",
+        "    #[sv::msg(instantiate)] pub fn instantiate(&self, ctx: InstantiateCtx) -> StdResult<Response> { Ok(Response::new()) }"]
+    for m in contract_methods:
+        out.append("    #[sv::msg(%s)] pub fn %s(&self, ctx: %s) -> %s { %s }" % (kind, m, ctx, ret_c, body))
+    out.append("}")
+    for k, ms in enumerate(ifaces):
+        out += ["impl iface%d::Iface%d for Ctr {" % (k, k), "    type Error = StdError;"]
+        for m in ms:
+            out.append("    fn %s(&self, ctx: %s) -> %s { %s }" % (m, ctx, ret_i.replace("Self::Error", "StdError"), body))
+        out.append("}")
+    out.append("fn main() {}")
+    return "\n".join(out) + "\n"
+
+
+# (interfaces, contract methods, shares a wire name?): collisions between two INTERFACES (the contract does not have the
+# name), between a middle interface and the contract, and collision-free programs with three parts
+TRIPLES = [
+    ([["mint", "transfer"], ["update_minter", "mint"]], ["deposit"], True),
+    ([["mint", "transfer"], ["update_minter", "burn"]], ["deposit"], False),
+    ([["transfer"], ["approve", "burn"]], ["burn", "mint"], True),
+    ([["transfer"], ["approve", "burn"]], ["burn_from", "mint"], False),
+    ([["burn", "burn_from"], ["send", "burn_from"]], [], True),
+    ([["a"], ["b"], ["c"]], ["d"], False),
+]
+
+
 def wire(n):
     """serde's key for method n, independently of the model: UpperCamel by underscores/case/digit boundaries is
     not re-implemented here; only names whose wire form is evident are planted (see PAIRS)."""
@@ -64,6 +104,12 @@ def check_compiled_pairs(run, rng, thorough):
             name = "pair_%d_%s" % (i, kind)
             files[name] = pair_program(im, cm, kind)
             meta[name] = (im, cm, shared, kind)
+    triples = TRIPLES if thorough else [TRIPLES[i] for i in (0, 1, 2, 4)]
+    for i, (ifs, cm, shared) in enumerate(triples):
+        for kind in (kinds if thorough else [kinds[i % 3]]):
+            name = "triple_%d_%s" % (i, kind)
+            files[name] = multi_program(ifs, cm, kind)
+            meta[name] = (ifs, cm, shared, kind)
     res = rustc_batch.compile_batch(files, tag="c05")
     for name, errs in res.items():
         im, cm, shared, kind = meta[name]
@@ -76,7 +122,7 @@ def check_compiled_pairs(run, rng, thorough):
         if other and not overlap:
             run.oracle_fail("contract fails to compile for another reason: %s" % other[0]["message"][:300], desc)
         elif shared and not overlap:
-            run.oracle_fail("interface and contract share a %s message name but the contract compiles" % kind, desc)
+            run.oracle_fail("two parts (interface / interface or interface / contract) share a %s message name but the contract compiles" % kind, desc)
         elif not shared and overlap:
             run.oracle_fail("no %s message name is shared but the contract is rejected: %s" % (kind, overlap[0]["message"][:200]), desc)
 
